@@ -22,7 +22,7 @@ SPEC = {
     "rule": ("jobs from static ISAs, cascading (value-dependent) ISAs, the test corpus (asm blocks, assertions) and mutants, each "
              "run under 8 budgets; non-trivial = program whose success flips inside the swept budgets or that needs >= 3 passes "
              "to converge; distinct = distinct file set"),
-    "monitors": ["budget-monotonicity", "iterations-within-budget", "pass-trace-spec"],
+    "monitors": ["budget-monotonicity", "iterations-within-budget", "pass-trace-spec", "unique-layout-value"],
     "min_nontrivial": {"quick": 150, "thorough": 5000},
     "assumptions": ["hook H3 reports every top-level pass (begin/end events)"],
 }
@@ -126,7 +126,7 @@ def shard(ctx):
     while not ctx.out_of_time():
         rng = ctx.rng(i)
         i += ctx.nshards
-        w = workload.draw(rng, kinds=("isa", "casc", "corpus", "mut", "isamut", "macro", "deep"), weights=(2, 5, 2, 2, 1, 3, 4))
+        w = workload.draw(rng, kinds=("isa", "casc", "corpus", "mut", "isamut", "macro", "deep", "chain"), weights=(2, 5, 2, 2, 1, 3, 4, 2))
         ctx.count("kind:" + w["kind"])
         results = []
         bad = False
@@ -155,6 +155,15 @@ def shard(ctx):
                     ctx.violation("iterations", {"kind": "iterations-exceed-budget"}, job, {"<=": b}, {"iters": it})
                 ps = passes_of(rec["trace"]) if rec.get("trace") else []
                 ctx.count("trace-shape:" + "".join(p[3] for p in ps)[:12])
+        # padding chains have exactly one consistent layout, computed by the generator: whatever budget succeeds must give it
+        if w.get("expected_hex") is not None:
+            for b, job, rec in results:
+                if lib.ok(rec):
+                    ctx.monitor("unique-layout-value")
+                    if rec["out"]["hex"] != w["expected_hex"]:
+                        ctx.violation("budget-monotonic", {"kind": "output-is-not-the-unique-consistent-layout"}, job,
+                                      {"bits": w["expected_hex"][:80]}, {"budget": b, "bits": rec["out"]["hex"][:80]})
+                        break
         # monotonicity
         ctx.monitor("budget-monotonicity")
         first_ok = None
